@@ -145,11 +145,18 @@ def run(chk) -> None:
         if call is None:
             continue
         var = call.args.args[1].arg
-        for n in ast.walk(call):
-            if isinstance(n, ast.BinOp) and isinstance(n.op, ast.Pow) and any(isinstance(x, ast.Name) and x.id == var for x in ast.walk(expand(n.right, n))):
+        from .c06 import helper_calls
+        from ..index import ancestors
+        # power terms whose exponent grows with the retry number: in __call__ itself or in a module-level helper it calls
+        sites = [(n, call, {var: ast.Name(id=var, ctx=ast.Load())}) for n in ast.walk(call) if isinstance(n, ast.BinOp) and isinstance(n.op, ast.Pow) and any(isinstance(x, ast.Name) and x.id == var for x in ast.walk(expand(n.right, n)))]
+        for hc, h, mapping in helper_calls(mrp, call):
+            grows = [p for p, a in mapping.items() if any(isinstance(x, ast.Name) and x.id == var for x in ast.walk(a))]
+            for n in ast.walk(h):
+                if isinstance(n, ast.BinOp) and isinstance(n.op, ast.Pow) and any(isinstance(x, ast.Name) and x.id in grows for x in ast.walk(expand(n.right, n))):
+                    sites.append((n, h, mapping))
+        for n, owner, mapping in sites:
                 pows += 1
                 guarded = False
-                from ..index import ancestors
                 for a in ancestors(n):
                     if isinstance(a, ast.Try) and any(n is x for s in a.body for x in ast.walk(s)):
                         for h in a.handlers:
@@ -161,7 +168,10 @@ def run(chk) -> None:
                 # confirm with one evaluation of the power at a large retry number (float parameters as the constructors produce)
                 witness = ""
                 try:
-                    Interp().eval(n, {var: 5000, "self": Record(cname, exp_base=2.0, multiplier=1.0, initial=1.0, max=60.0, min=0.0, jitter=1.0)})
+                    env = {var: 5000, "self": Record(cname, exp_base=2.0, multiplier=1.0, initial=1.0, max=60.0, min=0.0, jitter=1.0)}
+                    if owner is not call:
+                        env = {p: Interp().eval(a, env) for p, a in mapping.items()}
+                    Interp().eval(n, env)
                 except Raised as r:
                     witness = f"`{ast.unparse(n)}` raises {r.name} at {var}=5000"
                 except Unsupported:
@@ -253,6 +263,9 @@ TWINS = [
     Twin("and builds any", RP_REL, "    def __and__(self, other: StopCondition) -> stop_all:\n        return stop_all(self, other)", "    def __and__(self, other: StopCondition) -> stop_all:\n        return stop_any(self, other)", "C07.R1"),
     Twin("combine takes max", RP_REL, "        return sum(strategy(attempts, seed=seed) for strategy in self.strategies)", "        return max(strategy(attempts, seed=seed) for strategy in self.strategies)", "C07.R1"),
     Twin("combine loses seed", RP_REL, "        return sum(strategy(attempts, seed=seed) for strategy in self.strategies)", "        return sum(strategy(attempts) for strategy in self.strategies)", "C07.R1"),
+    Twin("overflow guard catches the wrong error", RP_REL, "    except OverflowError:\n        return float(\"inf\")", "    except ZeroDivisionError:\n        return float(\"inf\")", "C07.R2"),
+    Twin("exponential inlined without guard", RP_REL, "            min(_exp_term(self.multiplier, self.exp_base, attempts), self.max),\n        )\n\n\nclass wait_incrementing", "            min(self.multiplier * self.exp_base**attempts, self.max),\n        )\n\n\nclass wait_incrementing", "C07.R2"),
+    Twin("benign: exponent clamped instead of guarded", RP_REL, "        return factor * exp_base**attempts\n    except OverflowError:", "        return factor * exp_base ** min(attempts, 1000)\n    except OverflowError:", None),
     Twin("incrementing unclamped", RP_REL, "        return max(0.0, min(result, self.max))", "        return max(0.0, result)", "C07.R2"),
     Twin("jitter exceeds max", RP_REL, "        return min(base + rng.uniform(0, self.jitter), self.max)", "        return base + rng.uniform(0, self.jitter)", "C07.R2"),
     Twin("unseeded draw", RP_REL, "        rng = random.Random(seed) if seed is not None else random\n        return rng.uniform(self.min, self.max)", "        rng = random\n        return rng.uniform(self.min, self.max)", "C07.R3"),
